@@ -267,7 +267,7 @@ var hiddenVar = "hv"
 // layout family (IR): imports needed only by one part of the output, several injectors in several files, doc comments.
 func c01LayoutCases() []*h.Case {
 	var out []*h.Case
-	for variant := 0; variant < 7; variant++ {
+	for variant := 0; variant < 10; variant++ {
 		b := ir.NewBuilder()
 		p := b.Root
 		la := &ir.Pkg{Name: "cfg", Rel: "alpha/cfg"}
@@ -293,6 +293,11 @@ func c01LayoutCases() []*h.Case {
 			injs = []*ir.Injector{mk("InitA", "wire.go", "// InitA builds a T.\n// Second line."), mk("InitB", "wire.go", ""), mk("InitC", "wire_more.go", "/* block doc */")}
 		case 5: // same-named packages, one only in a parameter and one only in the result
 			injs = []*ir.Injector{{Name: "Init", Params: []ir.Param{{Name: "cfg", T: ta}}, Out: tb, Items: []*ir.Item{ir.FuncItem(&ir.Func{Pkg: lb, Name: "New", Params: []*ir.Type{ta}, Out: tb})}}}
+		case 7, 8, 9: // blank / unnamed / mixed parameters that providers consume
+			u := b.Leaf(p, "U")
+			names := [][2]string{{"_", "_"}, {"-", "-"}, {"_", "named"}}[variant-7]
+			injs = []*ir.Injector{{Name: "Init", Params: []ir.Param{{Name: names[0], T: ta}, {Name: names[1], T: u}}, Out: r,
+				Items: []*ir.Item{ir.FuncItem(&ir.Func{Pkg: p, Name: "PR", Params: []*ir.Type{u, ta}, Out: r})}}}
 		case 6: // variadic injector with a lib-typed variadic parameter, unnamed
 			r2 := b.Leaf(la, "R2")
 			injs = []*ir.Injector{{Name: "Init", Params: []ir.Param{{Name: "-", T: r2}, {Name: "-", T: ir.Slice(ta)}}, Variadic: true, Out: tb, Items: []*ir.Item{ir.FuncItem(&ir.Func{Pkg: lb, Name: "New", Params: []*ir.Type{ir.Slice(ta), r2}, Out: tb})}}}
@@ -309,6 +314,7 @@ func c01AliasCases() []*h.Case {
 	lib := "package lib\n\nvar Num = 5\n\ntype T struct{ N int }\n\nfunc Twice(x int) int { return 2 * x }\n"
 	hdr := "//go:build wireinject\n// +build wireinject\n\npackage p\n\nimport (\n\txl \"{{ROOT}}/lib\"\n\t\"github.com/google/wire\"\n)\n\n"
 	bodies := map[string]string{
+		"copied-type-alias": "func Init() *Logger {\n\tpanic(wire.Build(NewLogger))\n}\n\n// Logger is an alias: code outside this file relies on the two names denoting one type.\ntype Logger = StdLogger\n\nvar _ = xl.Num\n",
 		"value-only":          "func Init() int {\n\tpanic(wire.Build(wire.Value(xl.Num)))\n}\n",
 		"copied-decl-only":    "func Init() int {\n\tpanic(wire.Build(provide))\n}\n\nfunc provide() int { return xl.Twice(xl.Num) }\n",
 		"copied-var-only":     "func Init() int {\n\tpanic(wire.Build(wire.Value(7)))\n}\n\nvar copied = xl.T{N: xl.Num}\n",
@@ -317,6 +323,9 @@ func c01AliasCases() []*h.Case {
 	var out []*h.Case
 	for name, body := range bodies {
 		files := map[string]string{"lib/lib.go": lib, "wire.go": hdr + body, "driver.go": "package p\n\nvar _ func() int = Init\n"}
+		if name == "copied-type-alias" {
+			files["driver.go"] = "package p\n\ntype StdLogger struct{ Prefix string }\n\nfunc (l *StdLogger) Log() string { return l.Prefix }\n\nfunc NewLogger() *StdLogger { return &StdLogger{Prefix: \"x\"} }\n\nvar _ func() *Logger = Init\n\nvar _ = (*Logger).Log\n"
+		}
 		out = append(out, &h.Case{ID: "C01/aliased-import/" + name, Files: files, Build: true, Judge: judgeC01(true)})
 	}
 	return out
